@@ -334,6 +334,19 @@ class Interp:
             if isinstance(st.value, ast.Constant):
                 return [Outcome('fall', env, None, cond)]
             env = dict(env)
+            c = st.value
+            if isinstance(c, ast.Call) and isinstance(c.func, ast.Name) and \
+                    c.func.id == 'setattr' and 'setattr' not in env and \
+                    len(c.args) == 3 and not c.keywords:
+                # setattr(obj, <name that evaluates to a string constant>, v)
+                # is the assignment obj.<name> = v
+                nm = self.eval(c.args[1], env, frame, cond)
+                if nm[0] == 'const' and isinstance(nm[1], str) and nm[1].isidentifier():
+                    v = self.eval(c.args[2], env, frame, cond, stmt_env=env)
+                    tgt = ast.copy_location(
+                        ast.Attribute(c.args[0], nm[1], ast.Store()), c)
+                    self.assign(tgt, v, env, frame, cond)
+                    return [Outcome('fall', env, None, cond)]
             v = self.eval(st.value, env, frame, cond, stmt_env=env)
             return [Outcome('fall', env, None, cond)]
         if isinstance(st, ast.Assign):
